@@ -1960,7 +1960,7 @@ fn probe_plan(k: u64) -> (&'static str, Vec<PlanOp>) {
             let mut v = vec![open_b, op(F::OpenFileEx, HSel::Live(0), [1, 1, 0, 0])];
             for class in 0..8 {
                 for size in 0..8 {
-                    v.push(op(F::GetFileInfo, HSel::Live(class % 2), [class, size, size + class, 0]));
+                    v.push(op(F::GetFileInfo, HSel::Live(if matches!(class, 0 | 1 | 6) { 1 } else { 0 }), [class, size, size + class, 0]));
                 }
             }
             ("file-info-classes-x-buffer-sizes", v)
